@@ -247,6 +247,36 @@ def helper_obs(seed):
     obs.append(fc.contract_ob('C20/bilerp/post[tensor weights]', F_ + 'bilerp', [PROP], bilerp_case(False), 'bilerp == documented bilinear formula'))
     obs.append(fc.contract_ob('C20/bilerp/post[scalar weights]', F_ + 'bilerp', [PROP], bilerp_case(True), 'bilerp == documented bilinear formula (float weights)'))
 
+    def bilerp_broadcast():
+        import torch
+        import pfhedge.nn.functional as F
+        from pfv.torchlib.tensor import Tensor
+        i_, j_ = tm.var('bi', 'I'), tm.var('bj', 'I')
+
+        hold = {}
+
+        def run(c_):
+            # the second pair and the second weight have a LARGER broadcast shape than the first interpolation
+            hold['ts'] = (Tensor.input('A1', (3,), torch.float64), Tensor.input('A2', (3,), torch.float64), Tensor.input('A3', (2, 3), torch.float64),
+                          Tensor.input('A4', (2, 3), torch.float64), Tensor.input('U1', (), torch.float64), Tensor.input('U2', (2, 1), torch.float64))
+            return F.bilerp(*hold['ts'])
+
+        def ens(res, p):
+            one = tm.ONE
+            A1, A2, A3, A4, U1, U2 = hold['ts']
+            a1, a2, a3, a4 = A1.at((j_,)), A2.at((j_,)), A3.at((i_, j_)), A4.at((i_, j_))
+            u, w = U1.at(()), U2.at((i_, tm.IZERO))
+            spec = tm.add(tm.mul(tm.sub(one, u), tm.sub(one, w), a1), tm.mul(u, tm.sub(one, w), a2), tm.mul(tm.sub(one, u), w, a3), tm.mul(u, w, a4))
+            return [('value[i,j]', [tm.le(tm.IZERO, i_), tm.lt(i_, tm.const(2, 'I')), tm.le(tm.IZERO, j_), tm.lt(j_, tm.const(3, 'I'))], res.at((i_, j_)), spec)]
+        cs = fc.Case(run, hyps=[], ensures=ens, shape=lambda res: (2, 3),
+                     real_snippet='import pfhedge.nn.functional as F\ntorch.manual_seed(0)\na1,a2=torch.randn(3,dtype=torch.float64),torch.randn(3,dtype=torch.float64)\n'
+                                  'a3,a4=torch.randn(2,3,dtype=torch.float64),torch.randn(2,3,dtype=torch.float64)\nu,w=torch.tensor(0.3,dtype=torch.float64),torch.rand(2,1,dtype=torch.float64)\n'
+                                  'result={"got": F.bilerp(a1,a2,a3,a4,u,w).reshape(-1).tolist(), "ref": ((1-u)*(1-w)*a1+u*(1-w)*a2+(1-u)*w*a3+u*w*a4).reshape(-1).tolist()}')
+        cs.battery = True
+        return cs
+    obs.append(fc.contract_ob('C20/bilerp/post[broadcast operands]', F_ + 'bilerp', [PROP], bilerp_broadcast,
+                              'bilerp broadcasts: first pair (3,), second pair (2,3), weights () and (2,1) -> (2,3), element-wise the bilinear formula'))
+
     u1, u2, eps = tm.var('u1'), tm.var('u2'), tm.var('eps')
 
     def bm_case():
